@@ -232,6 +232,10 @@ func c09dir(c *h.Ctx, idx int, mask int, taskForm string, fromSub, staged bool) 
 	pw := func(tag string) string { return fmt.Sprintf("printf '%s=[%%s]\\n' \"$(/bin/pwd)\" >> '%s'", tag, trace) }
 	// a command that changes its own directory moves nothing but itself: the next command starts where the levels say
 	tdef := gen.OM{{K: "before", V: []interface{}{pw("before") + "; cd /"}}, {K: "command", V: []interface{}{pw("c0") + "; cd /; cd /usr", pw("c1")}}, {K: "after", V: []interface{}{pw("after")}}, {K: "context", V: "cx"}}
+	if !hasCtx && idx%2 == 1 {
+		// no named context at all: the last resort really is the directory taskctl was started in
+		tdef = tdef[:len(tdef)-1]
+	}
 	if hasTask {
 		if taskForm == "root" {
 			tdef.Set("dir", "{{.Root}}/taskdir")
